@@ -9,7 +9,8 @@ if [ ! -d /tmp/mutrepo ]; then git -C /repo worktree add -q --detach /tmp/mutrep
 git -C /tmp/mutrepo checkout -q --detach $(git -C /repo rev-parse HEAD) 2>/dev/null
 git -C /tmp/mutrepo checkout -q -- . ; git -C /tmp/mutrepo clean -fdq
 mkdir -p /tmp/veval
-rsync -a --delete --exclude .git --exclude .build --exclude 'replays/*' /verif/ /tmp/veval/
+# NOSYNC=1: keep the private copy as it is (other work may be half-way through an edit in /verif)
+if [ "${NOSYNC:-0}" != "1" ]; then rsync -a --delete --exclude .git --exclude .build --exclude 'replays/*' /verif/ /tmp/veval/; fi
 sed -i 's|=> /repo|=> /tmp/mutrepo|' /tmp/veval/harness/go.mod
 if [ "$PATCH" != "none" ]; then
   git -C /tmp/mutrepo apply "$PATCH" || { echo "PATCH DOES NOT APPLY"; exit 3; }
